@@ -256,16 +256,17 @@ def hash_obligations():
     o.append(Ob('sha256_compress', P, enforce='sha256hash__getHash_1', unwind=66, timeout=900, note=pb, **HASH))
     o.append(Ob('sha1_compress', P, enforce='sha1hash__getHash_1', unwind=82, timeout=900, note=pb, **HASH))
     o.append(Ob('md5_compress', P, enforce='md5hash__getHash_1', unwind=66, timeout=900, note=pb, solver='minisat', **HASH))
-    al = dict(contracts=['hash.h'], defines=['WV_INPUT_ALIAS'])
+    al = dict(contracts=['hash.h'], defines=['WV_ALIAS_COMPRESS'])
+    al2 = dict(contracts=['hash.h'], defines=['WV_ALIAS_FINAL'])
     an = ' (variant: the block pointer is the hasher\'s own hashblock member, as passed by getFileHash)'
     o.append(Ob('sha256_compress_alias', P, enforce='sha256hash__getHash_1', unwind=66, timeout=900, note=pb + an, **al))
     o.append(Ob('sha1_compress_alias', P, enforce='sha1hash__getHash_1', unwind=82, timeout=900, note=pb + an, **al))
     o.append(Ob('md5_compress_alias', P, enforce='md5hash__getHash_1', unwind=66, timeout=900, note=pb + an, solver='minisat', **al))
     for c in ('sha256hash', 'sha1hash', 'md5hash'):
-        o.append(Ob(c + '_final_alias', P, enforce=c + '__getHash_2', replace=[c + '__getHash_1'], unwind=66, timeout=600, note='final-block routine' + an, **al))
-    for m in ('getHash_1', 'getHash_2'):
-        o.append(Ob('hashmaster_dispatch_%s_alias' % m, P, enforce='Hashmaster__' + m,
-                    replace=['%s__%s' % (c, m) for c in ('sha256hash', 'sha1hash', 'md5hash')], note='R5 dispatcher' + an, **al))
+        o.append(Ob(c + '_final_alias', P, enforce=c + '__getHash_2', replace=[c + '__getHash_1'], unwind=66, timeout=600, note='final-block routine' + an, **al2))
+    for m, dd in (('getHash_1', 'WV_ALIAS_COMPRESS'), ('getHash_2', 'WV_ALIAS_FINAL')):
+        o.append(Ob('hashmaster_dispatch_%s_alias' % m, P, enforce='Hashmaster__' + m, contracts=['hash.h'], defines=[dd, 'WV_HM_BIG'],
+                    replace=['%s__%s' % (c, m) for c in ('sha256hash', 'sha1hash', 'md5hash')], note='R5 dispatcher' + an))
     for c in ('sha256hash', 'sha1hash', 'md5hash'):
         o.append(Ob(c + '_final', P, enforce=c + '__getHash_2', replace=[c + '__getHash_1'], unwind=66, timeout=600, **HASH,
                     note='padding rule for every residue r < 64 and the 64-bit length field, observed at an arbitrary byte of either final block'))
@@ -273,10 +274,10 @@ def hash_obligations():
         o.append(Ob(c + '_getres', P, enforce=c + '__getres', unwind=34, **HASH))
     # behavioural subtyping: each dispatcher's abstract contract holds for every subclass (overriders replaced by their contracts)
     for m, suffix in (('reset', ''), ('getHash_1', ''), ('getHash_2', ''), ('getres', '')):
-        o.append(Ob('hashmaster_dispatch_' + m, P, enforce='Hashmaster__' + m,
+        o.append(Ob('hashmaster_dispatch_' + m, P, enforce='Hashmaster__' + m, defines=['WV_HM_BIG'],
                     replace=['%s__%s' % (c, m) for c in ('sha256hash', 'sha1hash', 'md5hash')], **HASH,
                     note='R5 dispatcher: the abstract contract used by the drivers is satisfied by all three subclasses'))
-    o.append(Ob('hashmaster_getStringHash', P + ['C18'], enforce='Hashmaster__getStringHash', timeout=600,
+    o.append(Ob('hashmaster_getStringHash', P + ['C18'], enforce='Hashmaster__getStringHash', timeout=600, defines=['WV_HM_BIG'],
                 replace=['Hashmaster__reset', 'Hashmaster__getHash_1', 'Hashmaster__getHash_2', 'Hashmaster__getres'], **HASH,
                 note='unbounded in the message length (symbolic 32-bit length, loop contract); call log: block j is string[64j..64j+64), then the final routine with the tail and the 64-bit bit count'))
     # hashing buffer; the refill size constant is overridden by small values (DESIGN.md 2.4)
@@ -287,13 +288,40 @@ def hash_obligations():
         o.append(Ob('filebuffer64_read_hb%d' % hb, P, enforce='filebuffer64__read_buffer64', replace=['wv_fread'], defines=d, **HASH,
                     note='unit sequence 64,...,64,short across refills; proof-build refill size HBUF_SZ=%d units' % hb))
     o.append(Ob('buffer64_dispatch_read', P, enforce='buffer64__read_buffer64', replace=['filebuffer64__read_buffer64'], defines=['filebuffer64__HBUF_SZ=2'], **HASH))
-    o.append(Ob('hashmaster_getFileHash', P, enforce='Hashmaster__getFileHash', timeout=600, defines=['filebuffer64__HBUF_SZ=2', 'WV_INPUT_ALIAS'], split=12,
+    o.append(Ob('hashmaster_getFileHash', P, enforce='Hashmaster__getFileHash', timeout=600, defines=['filebuffer64__HBUF_SZ=2', 'WV_ALIAS_COMPRESS', 'WV_ALIAS_FINAL', 'WV_HM_BIG'], split=12,
                 replace=['Hashmaster__reset', 'Hashmaster__getHash_1', 'Hashmaster__getHash_2', 'Hashmaster__getres', 'buffer64__read_buffer64'], **HASH,
                 note='unbounded in the stream length (symbolic 64-bit file length, loop contract with a decreasing variant)'))
     return o
 
 
-B64 = dict(contracts=['b64.h'], unwind=34)
+FH = dict(contracts=['fheader.h'])
+
+
+def fheader_obligations():
+    o = []
+    P = ['C08', 'C05', 'C06', 'C02', 'C11']
+    hb = ['filebuffer64__HBUF_SZ=2']
+    o.append(Ob('hashfactory_getType', P, enforce='HashFactory__getType', **FH))
+    o.append(Ob('hashfactory_getHasher', P, enforce='HashFactory__getHasher', **FH))
+    for ht in (0, 1, 2):
+        dh = ['WV_HTYPE_FIX=%d' % ht]
+        tn = ' (hash type %d)' % ht
+        # the hash type is a constant of the harness, and the factory / length getters are the real code (not their contracts), so that
+        # the block and digest lengths are constants for CBMC (measured: with symbolic buffer sizes symex alone takes 216 s and the
+        # propositional reduction runs out of 12 GB)
+        o.append(Ob('hmac_getres_h%d' % ht, P, enforce='hmac__getres', timeout=900, unwind=66, defines=hb + dh, **FH,
+                    args='  hmac__getres(wv_a0, %d, wv_a2, wv_a3, wv_a4);' % ht,
+                    replace=['filebuffer64__ctor', 'Hashmaster__getFileHash', 'Hashmaster__getStringHash'],
+                    note='RFC 2104 structure: pad blocks from all 16 key bytes, inner hash over pad block + file[pos, EOF), outer hash over pad block + inner digest' + tn))
+        o.append(Ob('hmac_cmphmac_h%d' % ht, P, enforce='hmac__cmphmac', replace=['hmac__getres'], unwind=34, defines=dh, timeout=900, **FH,
+                    note='accepts iff every one of the hlen tag bytes matches (32-fold expanded equality, no ghost index needed)' + tn))
+        o.append(Ob('hmac_gethmac_h%d' % ht, P, enforce='hmac__gethmac', replace=['hmac__getres'], unwind=34, defines=dh, **FH))
+        o.append(Ob('hmac_writeFileHmac_h%d' % ht, P + ['C13'], enforce='hmac__writeFileHmac', replace=['hmac__getres', 'wv_fseek', 'wv_fwrite'], unwind=34, defines=dh, **FH,
+                    note='one fwrite of exactly hlen bytes at writeMark, after hashing [hashMark, EOF)' + tn))
+    return o
+
+
+B64 = dict(contracts=['b64.h'], unwind=34, defines=['WV_CLI'])
 
 
 def b64_obligations():
@@ -358,4 +386,4 @@ void h_b64_validator_other_lengths(void)
 
 
 def all_obligations():
-    return aes_obligations() + mode_obligations() + hash_obligations() + b64_obligations()
+    return aes_obligations() + mode_obligations() + hash_obligations() + fheader_obligations() + b64_obligations()
